@@ -17,6 +17,7 @@ import multiprocessing as mp
 import threading
 import time
 import warnings
+import random
 from harness.common import Check, gen_corpus, fresh_env
 from harness import term_io, tlc
 from harness.fakes import portfolio_members as pm
@@ -30,7 +31,7 @@ DEPS = ("gen/Gen_Portfolio.tla",)
 BLOCKED = [0]
 
 
-def run_schedule(env, sched, hooks, rounds=1):
+def run_schedule(env, sched, hooks, rounds=1, model_change=False):
     m = env.formula_manager
     p, q, x = m.Symbol("p", BOOL), m.Symbol("q", BOOL), m.Symbol("x", INT)
     asserts = [m.Or(p, q), m.LE(x, m.Int(2)), m.Implies(q, m.LE(m.Int(1), x))]
@@ -50,7 +51,15 @@ def run_schedule(env, sched, hooks, rounds=1):
             # the second solve is asked about changed assertions with the opposite verdict: whatever a loser
             # of the first solve still managed to post must not be taken for an answer to this one
             verdict = "unsat" if sched["verdict"] == "sat" else "sat"
-            if verdict == "unsat":
+            if verdict == "unsat" and (model_change or random.Random(repr(sorted(sched.items()))).random() < 0.5):
+                # ... or with the SAME verdict and another model: the second answer is sat again, but only q = true
+                # satisfies the assertions now - the model handed out after the first solve must not be handed out again
+                verdict = "sat"
+                extra = q
+                port.add_assertion(extra)
+                asserts = asserts + [extra]
+                sat_model = [(p, m.TRUE()), (q, m.TRUE()), (x, m.Int(2))]
+            elif verdict == "unsat":
                 extra = m.LE(m.Int(5), x)
                 port.add_assertion(extra)
                 asserts = asserts + [extra]
@@ -295,6 +304,15 @@ def run(ck):
             ck.count()
             if len(set(ev["beh"])) > 1 or ev["late"] or ev["tie"]:
                 ck.nontrivial((tuple(ev["beh"]), tuple(ev["order"]), tuple(ev["late"]), ev["tie"], len(ev["rounds"])))
+        # two consecutive sat answers with different models, whoever wins
+        twice = [s for s in n2 + n3 if s["verdict"] == "sat" and "ans" in s["beh"]]
+        for s in ck.rng.sample(twice, min(len(twice), 16 if quick else 200)):
+            if BLOCKED[0] >= 8:
+                break
+            ev = run_schedule(env, s, hooks, rounds=2, model_change=True)
+            ev["id"] = len(scheds) + 5000 + len(evs)
+            evs.append(ev)
+            ck.count()
     finally:
         hooks.uninstall()
     sm = smtlib_member_runs(ck, quick, len(scheds) + 10)
